@@ -9,6 +9,7 @@ import (
 	authtypes "github.com/cosmos/cosmos-sdk/x/auth/types"
 	ammtypes "github.com/elys-network/elys/x/amm/types"
 	aptypes "github.com/elys-network/elys/x/assetprofile/types"
+	ckeeper "github.com/elys-network/elys/x/commitment/keeper"
 	ctypes "github.com/elys-network/elys/x/commitment/types"
 	vrf "github.com/elys-network/elys/zzvrf"
 	"github.com/elys-network/elys/zzvrf/wire"
@@ -253,3 +254,34 @@ func H_Uncommit_EdenThenShare() { twoDenoms("ueden", share) }
 //vrf:cover uncommit-ok uncommit-refused
 //vrf:bound 1 account with an LP-share denom followed by committed Eden; uncommit of either
 func H_Uncommit_ShareThenEden() { twoDenoms(share, "ueden") }
+
+// ---- the commitment module's own messages cannot take LP shares out of custody ----
+
+// An account with committed LP shares sends one of the commitment messages that name a denom and an amount
+// (uncommit, unstake, vest, vest-liquid? no: those that could release committed tokens): whatever the handler answers,
+// the account's committed shares and the custody balance are what they were (shares leave custody only through the
+// amm's exit, which burns them).
+//
+//vrf:cover refused
+//vrf:bound 1 account with committed LP shares (no lock-ups); MsgUncommitTokens or MsgUnstake naming the share denom with a symbolic amount
+func H_Messages_CannotReleasePoolShares() {
+	s := setup(0)
+	vrf.Assume(s.a.IsPositive())
+	env, ctx := s.env, s.env.Ctx
+	srv := ckeeper.NewMsgServerImpl(*env.Comm)
+	amt := vrf.Int("amt")
+	vrf.Assume(amt.IsPositive())
+	custody0 := env.W.BalOf(commMod, share)
+	var err error
+	if vrf.Bool("viaUnstake") {
+		_, err = srv.Unstake(ctx, &ctypes.MsgUnstake{Creator: alice.String(), Asset: share, Amount: amt, ValidatorAddress: ""})
+	} else {
+		_, err = srv.UncommitTokens(ctx, &ctypes.MsgUncommitTokens{Creator: alice.String(), Denom: share, Amount: amt})
+	}
+	if err != nil {
+		vrf.Cover("refused")
+	}
+	vrf.Assert(s.committed().Equal(s.a), "C12/C02: a commitment message cannot lower an account's committed LP shares")
+	vrf.Assert(env.W.BalOf(commMod, share).Equal(custody0), "C12/C02: a commitment message cannot move LP shares out of custody")
+	vrf.Assert(env.W.BalOf(alice, share).Equal(s.wallet), "C12/C02: no liquid LP shares appear in the account")
+}
